@@ -6,14 +6,15 @@ pub trait SimBackend {
     fn draw(&mut self, n: usize) -> usize;
     fn bits(&mut self) -> u64;
     fn hash_key(&mut self) -> (u64, u64);
-    fn probe(&mut self, id: &'static str);
+    fn probe(&mut self, id: &'static str, val: u64);
 }
 
 thread_local! { static BACKEND: RefCell<Option<Box<dyn SimBackend>>> = RefCell::new(None); }
 
 pub fn install(b: Box<dyn SimBackend>) { BACKEND.with(|c| *c.borrow_mut() = Some(b)); }
 pub fn uninstall() -> Option<Box<dyn SimBackend>> { BACKEND.with(|c| c.borrow_mut().take()) }
-pub fn probe(id: &'static str) { BACKEND.with(|c| if let Some(b) = c.borrow_mut().as_mut() { b.probe(id) }); }
+pub fn probe(id: &'static str, val: u64) { BACKEND.with(|c| if let Some(b) = c.borrow_mut().as_mut() { b.probe(id, val) }); }
+pub fn installed() -> bool { BACKEND.with(|c| c.borrow().is_some()) }
 
 pub struct SimRng(());
 impl SimRng {
